@@ -120,9 +120,13 @@ def wire(R, RID='C04.wire'):
     hdr = None
     for n in g.live_nodes():
         if n.kind == 'stmt' and isinstance(n.ast, ast.Assign) and isinstance(n.ast.targets[0], ast.Tuple) \
-                and isinstance(n.ast.value, ast.Yield) and n.ast.value.value is not None \
                 and len(n.ast.targets[0].elts) == 2:
-            c = rd.origin(n, n.ast.value.value)[0]
+            yv, yn = n.ast.value, n
+            if isinstance(yv, ast.Name):
+                yv, yn = rd.origin(n, yv)          # header = yield self.read(2); b1, b2 = header
+            if not (isinstance(yv, ast.Yield) and yv.value is not None):
+                continue
+            c = rd.origin(yn, yv.value)[0]
             if not isinstance(c, ast.Call):
                 continue
             if any(t.kind == 'ctor' and t.cls == 'parser._ReadBytes' for t in R.types.call_targets(c, g.ctx)) \
@@ -144,7 +148,12 @@ def wire(R, RID='C04.wire'):
             if isinstance(inner, ast.Call) and U(inner.func) == 'bool' and inner.args:
                 inner = inner.args[0]
             o, on = rd.origin(cons, inner)
+            from .common import subst_locals
             bits = _bits(o, {b1, b2})
+            if bits is None:
+                # the field is computed through intermediate locals (flags = b1 >> 4; fin = flags >> 3)
+                o2 = subst_locals(R, g, on, o)
+                bits = _bits(o2, {b1, b2})
             detail += ' = %s' % U(o)
             if bits is not None:
                 s2, sh2, eff = bits
@@ -158,6 +167,9 @@ def wire(R, RID='C04.wire'):
     for n in g.live_nodes():
         if n.kind == 'stmt' and isinstance(n.ast, ast.Assign) and isinstance(n.ast.targets[0], ast.Name):
             bits = _bits(n.ast.value, {b2})
+            if bits is None and not any(isinstance(x, (ast.Yield, ast.Call)) for x in ast.walk(n.ast.value)):
+                from .common import subst_locals as _sl
+                bits = _bits(_sl(R, g, n, n.ast.value), {b2})
             if bits == (b2, 0, 127):
                 plen = (n, n.ast.targets[0].id)
     need(plen is not None, 'FrameParser.parse: 7-bit length extraction `byte2 & 0x7f` not found')
@@ -170,11 +182,22 @@ def wire(R, RID='C04.wire'):
     forms = {}
     for n in ext:
         v = n.ast.value
+        if isinstance(v, ast.Name):
+            # decoded into a local first:  raw = yield self.read(k); length, = unpack(raw); payload_length = length
+            to = rd.tuple_origin(n, v)
+            if to is not None:
+                v = to[0]
         sf = struct_format(R, g.ctx, v) if isinstance(v, ast.Call) else None
         ys = [y for y in walk_no_nested(v) if isinstance(y, ast.Yield)]
+        if not ys and isinstance(v, ast.Call) and v.args and isinstance(v.args[0], ast.Name):
+            vn = [m for m in g.live_nodes() if m.kind == 'stmt' and any(x is v for x in walk_no_nested(m.ast))]
+            if vn:
+                yo = rd.origin(vn[0], v.args[0])[0]
+                if isinstance(yo, ast.Yield):
+                    ys = [yo]
         cnt = fold(R, ys[0].value.args[0], g.ctx) if ys and isinstance(ys[0].value, ast.Call) and ys[0].value.args else None
         gs = {(t, p) for (t, p, _) in guards_of(g, n)}
-        lo, hi = interval_of(R, g.ctx, gs, lv)
+        lo, hi = interval_of(R, g.ctx, gs, lv, domain=(0, 127))
         forms[n] = (sf, cnt, lo, hi)
         import struct as _s
         ok = sf is not None and sf[0] == 'unpack' and sf[1] in ('!H', '!Q') and cnt == _s.calcsize(sf[1]) \
@@ -192,7 +215,9 @@ def wire(R, RID='C04.wire'):
     R.ob(RID, 'both extended forms present', sorted((v[0] or ('', ''))[1] for v in forms.values()) == ['!H', '!Q'],
          'extended length forms: %s' % [v[0] for v in forms.values()], func=f, node=plen[0].ast,
          construct='extended length forms')
-    R._c04 = {'g': g, 'rd': rd, 'cons': cons, 'lenvar': lv, 'lendefs': {plen[0]} | set(ext), 'hdr': hdr}
+    lennames = {lv} | {U(n.ast.value) for n in ext if isinstance(n.ast.value, ast.Name)}
+    R._c04 = {'g': g, 'rd': rd, 'cons': cons, 'lenvar': lv, 'lendefs': {plen[0]} | set(ext), 'hdr': hdr,
+              'lennames': lennames}
 
 
 # ----------------------------------------------------------------------------------------------- table
@@ -317,9 +342,10 @@ def table(R):
     ok = False
     for rn in _raises_of(R, g, PROTO):
         for l in path_conditions(R, g, rd, env['hdr'], rn):
-            lo, hi = interval_of(R, g.ctx, l, lv)
-            if lo == (1 << 63) and hi == INF:
-                ok = True
+            for nm_ in sorted(env.get('lennames', {lv})):
+                lo, hi = interval_of(R, g.ctx, l, nm_)
+                if lo == (1 << 63) and hi == INF:
+                    ok = True
     # the payload read must be below the bound
     R.ob('C04.table', 'length >= 2^63', ok, 'no check rejects payload lengths >= 2**63 exactly', func=f, node=None,
          construct='payload too large check')
